@@ -6,11 +6,11 @@ From Capy Require Import Common.Util Model.Defer Model.DeferFixed Spec.DeferSpec
 
 (* ========================================================== refutation *)
 (* K1: defer A; while c { if c { break; } }            oracle 1,1 *)
-Definition w_k1 : list stmt := [SDefer 65; SLoop None true [SIf [SBreak None] []]].
+Definition w_k1 : list stmt := [SDefer (DAtom 65); SLoop None true [SIf [SBreak None] []]].
 (* K2: while c { defer L; if c { continue; } }         oracle 1,1,0 *)
-Definition w_k2 : list stmt := [SLoop None true [SDefer 76; SIf [SContinue None] []]].
+Definition w_k2 : list stmt := [SLoop None true [SDefer (DAtom 76); SIf [SContinue None] []]].
 (* K3: defer A; if c { return; } defer B;              oracle 1 *)
-Definition w_k3 : list stmt := [SDefer 65; SIf [SReturn] []; SDefer 66].
+Definition w_k3 : list stmt := [SDefer (DAtom 65); SIf [SReturn] []; SDefer (DAtom 66)].
 
 Lemma w_k1_fails :
   snd (lower_fn w_k1) = false /\ exec_fn 5 w_k1 [true; true] = Ok [65%N] /\
@@ -159,7 +159,8 @@ Proof.
 Qed.
 
 (* unfolding of the classifier's block loop *)
-Lemma kc_list_defer f sid cx p c r : kc_list f sid cx p (HDefer c :: r) = kc_list f sid cx true r.
+Lemma kc_list_defer f sid cx p c r :
+  kc_list f sid cx p (HDefer c :: r) = kc_list f sid cx (p || negb (is_nil c)) r.
 Proof. reflexivity. Qed.
 
 Lemma kc_list_cons f sid cx p h r : not_defer h ->
@@ -212,8 +213,8 @@ Proof.
   induction 1 as [|h r Hh Hr IH]; intros fuel pend o.
   - cbn. exact I.
   - destruct (not_defer_dec h) as [[c ->]|Hnd].
-    + rewrite hexec_list_defer. specialize (IH fuel (c :: pend) o).
-      destruct (hexec_list (hexec fuel) (c :: pend) r o) as [[[t o1] out]| |]; cbn in *; auto.
+    + rewrite hexec_list_defer. specialize (IH fuel (c ++ pend) o).
+      destruct (hexec_list (hexec fuel) (c ++ pend) r o) as [[[t o1] out]| |]; cbn in *; auto.
     + rewrite hexec_list_cons by assumption. specialize (Hh fuel o).
       destruct (hexec fuel h o) as [[[t1 o1] out]| |]; cbn in *; auto.
       destruct out; cbn.
@@ -270,6 +271,12 @@ Definition exit_code (ne : bool) (sid : option N) (df : list N) : list tstmt :=
 Lemma is_nil_snoc {A} (l : list A) x : is_nil (l ++ [x]) = false.
 Proof. destruct l; reflexivity. Qed.
 
+Lemma pending_push (pend c : list N) :
+  negb (is_nil (pend ++ rev c)) = negb (is_nil pend) || negb (is_nil c).
+Proof.
+  destruct pend; cbn; auto. destruct c; cbn; auto. rewrite is_nil_snoc. reflexivity.
+Qed.
+
 Lemma unwind_no_pending G id : existsb centry_pending (abs G) = false -> unwind_ex_tr (frames G) id = [].
 Proof.
   induction G as [|g G IH]; cbn; auto.
@@ -297,8 +304,8 @@ Proof.
     + rewrite compile_list_defer in Hc. rewrite hexec_list_defer. rewrite kc_list_defer in Hk.
       assert (H3' : k3_ok sid false r).
       { destruct sid; cbn in *; auto. apply orb_false_iff in H3. destruct H3 as [-> H3]. exact H3. }
-      specialize (IH fuel sid G (pend ++ [c]) false code df ne o).
-      rewrite is_nil_snoc in IH. cbn [negb] in IH. rewrite rev_app_distr in IH.
+      specialize (IH fuel sid G (pend ++ rev c) false code df ne o).
+      rewrite pending_push in IH. rewrite rev_app_distr, rev_involutive in IH.
       apply IH; auto.
     + rewrite compile_list_cons in Hc by assumption.
       rewrite hexec_list_cons by assumption.
@@ -367,11 +374,13 @@ Proof.
     rewrite unwind_code_tr, trun_emits. cbn. rewrite app_nil_r. reflexivity.
   - destruct l; cbn in Hc; inversion Hc; subst. cbn in Hk. inversion Hk.
     split; [|assumption]. reflexivity.
-  - destruct l; cbn in Hc; inversion Hc; subst. cbn in Hk. inversion Hk.
-    rewrite trun_list_single. cbn [trun hexec]. destruct (next o) as [c0 o0].
-    destruct c0; cbn; [|split; [reflexivity|exact I]].
-    split; [|assumption].
-    rewrite unwind_code_tr, trun_emits. cbn. rewrite app_nil_r. reflexivity.
+  - destruct l; [|cbn in Hc; discriminate].
+    cbn in Hk. inversion Hk.
+    destruct k; cbn in Hc; inversion Hc; subst;
+    (rewrite trun_list_single; cbn [trun hexec]; destruct (next o) as [c0 o0];
+     destruct c0; cbn; [|split; [reflexivity|exact I]];
+     split; [|assumption];
+     rewrite unwind_code_tr, trun_emits; cbn; rewrite app_nil_r; reflexivity).
   - (* block *)
     cbn [compile_stmt] in Hc. cbn [kc] in Hk. apply or3_fff in Hk. destruct Hk as [Hk3 Hk].
     inversion Hk3 as [Hk3'].
